@@ -32,6 +32,9 @@ type recDB struct {
 	under *youdb.MemDatabase
 	log   []prim
 	rec   bool
+	// inflate multiplies what a batch reports as ValueSize: with a large factor every size threshold in the code under
+	// test (youdb.IdealBatchSize is a constant) is reached by small batches, so any chunked Write shows up on small cases
+	inflate int
 }
 
 func newRecDB(under *youdb.MemDatabase) *recDB { return &recDB{under: under} }
@@ -103,8 +106,13 @@ func (b *recBatch) Write() error {
 	}
 	return nil
 }
-func (b *recBatch) ValueSize() int { return b.size }
-func (b *recBatch) Reset()         { b.kvs, b.size = nil, 0 }
+func (b *recBatch) ValueSize() int {
+	if b.db.inflate > 1 {
+		return b.size * b.db.inflate
+	}
+	return b.size
+}
+func (b *recBatch) Reset() { b.kvs, b.size = nil, 0 }
 
 // snapshot / restore of the underlying MemDatabase
 type snapshot map[string][]byte
